@@ -1217,4 +1217,143 @@ theorem flushAllBatches_PW (s : Sys F) (now : Nat) : PW StampRel s.links (flushA
 
 end scalar3
 
+/-! ## Round 3: `refSelect` is the first argmax -/
+
+/-- `i` is the least index among the usable links of `ls` whose score is maximal, and that score
+beats `bs`. -/
+def IsArgmax (ls : List RefLink) (bs : Int) (k : Nat) : Prop :=
+  ∃ l, ls[k]? = some l ∧ l.timedOut = false ∧ refScore l > bs ∧
+    (∀ (j : Nat) l', ls[j]? = some l' → l'.timedOut = false → refScore l' ≤ refScore l) ∧
+    (∀ (j : Nat) l', j < k → ls[j]? = some l' → l'.timedOut = false → refScore l' < refScore l)
+
+theorem isArgmax_unique {ls : List RefLink} {bs : Int} {a b : Nat} (ha : IsArgmax ls bs a) (hb : IsArgmax ls bs b) :
+    a = b := by
+  obtain ⟨la, ha1, ha2, -, ha4, ha5⟩ := ha
+  obtain ⟨lb, hb1, hb2, -, hb4, hb5⟩ := hb
+  rcases Nat.lt_trichotomy a b with h | h | h
+  · have h1 := hb5 a la h ha1 ha2
+    have h2 := ha4 b lb hb1 hb2
+    omega
+  · exact h
+  · have h1 := ha5 b lb h hb1 hb2
+    have h2 := hb4 a la ha1 ha2
+    omega
+
+/-- The loop of `select_conn`, characterised: either no usable link beats the running best score (the
+running best is returned), or the result is the least index of a maximal-score usable link. -/
+theorem refGo_spec (ls : List RefLink) (i : Nat) (best : Option Nat) (bs : Int) :
+    (refGo ls i best bs = best ∧ ∀ l ∈ ls, l.timedOut = false → refScore l ≤ bs) ∨
+    (∃ k, refGo ls i best bs = some (i + k) ∧ IsArgmax ls bs k) := by
+  induction ls generalizing i best bs with
+  | nil => left; exact ⟨rfl, fun l h => by cases h⟩
+  | cons l rest ih =>
+    unfold refGo
+    by_cases ht : l.timedOut = true
+    · rw [if_pos ht]
+      rcases ih (i + 1) best bs with ⟨h1, h2⟩ | ⟨k, h1, l', g1, g2, g3, g4, g5⟩
+      · left
+        refine ⟨h1, fun x hx hxt => ?_⟩
+        rcases List.mem_cons.1 hx with rfl | hm
+        · rw [ht] at hxt; cases hxt
+        · exact h2 x hm hxt
+      · right
+        refine ⟨k + 1, by rw [h1]; congr 1; omega, l', by simpa using g1, g2, g3, ?_, ?_⟩
+        · intro j x hj hxt
+          cases j with
+          | zero =>
+            have : l = x := by simpa using hj
+            subst this; rw [ht] at hxt; cases hxt
+          | succ j => exact g4 j x (by simpa using hj) hxt
+        · intro j x hjk hj hxt
+          cases j with
+          | zero =>
+            have : l = x := by simpa using hj
+            subst this; rw [ht] at hxt; cases hxt
+          | succ j => exact g5 j x (by omega) (by simpa using hj) hxt
+    · rw [if_neg ht]
+      have ht' : l.timedOut = false := by simpa using ht
+      by_cases hs : refScore l > bs
+      · rw [if_pos hs]
+        rcases ih (i + 1) (some i) (refScore l) with ⟨h1, h2⟩ | ⟨k, h1, l', g1, g2, g3, g4, g5⟩
+        · right
+          refine ⟨0, by rw [h1]; rfl, l, rfl, ht', hs, ?_, ?_⟩
+          · intro j x hj hxt
+            cases j with
+            | zero =>
+              have : l = x := by simpa using hj
+              subst this; exact Int.le_refl _
+            | succ j => exact h2 x (List.mem_of_getElem? (by simpa using hj)) hxt
+          · intro j x hjk; omega
+        · right
+          refine ⟨k + 1, by rw [h1]; congr 1; omega, l', by simpa using g1, g2, by omega, ?_, ?_⟩
+          · intro j x hj hxt
+            cases j with
+            | zero =>
+              have : l = x := by simpa using hj
+              subst this; omega
+            | succ j => exact g4 j x (by simpa using hj) hxt
+          · intro j x hjk hj hxt
+            cases j with
+            | zero =>
+              have : l = x := by simpa using hj
+              subst this; omega
+            | succ j => exact g5 j x (by omega) (by simpa using hj) hxt
+      · rw [if_neg hs]
+        rcases ih (i + 1) best bs with ⟨h1, h2⟩ | ⟨k, h1, l', g1, g2, g3, g4, g5⟩
+        · left
+          refine ⟨h1, fun x hx hxt => ?_⟩
+          rcases List.mem_cons.1 hx with rfl | hm
+          · omega
+          · exact h2 x hm hxt
+        · right
+          refine ⟨k + 1, by rw [h1]; congr 1; omega, l', by simpa using g1, g2, g3, ?_, ?_⟩
+          · intro j x hj hxt
+            cases j with
+            | zero =>
+              have : l = x := by simpa using hj
+              subst this; omega
+            | succ j => exact g4 j x (by simpa using hj) hxt
+          · intro j x hjk hj hxt
+            cases j with
+            | zero =>
+              have : l = x := by simpa using hj
+              subst this; omega
+            | succ j => exact g5 j x (by omega) (by simpa using hj) hxt
+
+theorem refSelect_some_iff (ls : List RefLink) (i : Nat) :
+    refSelect ls = some i ↔ IsArgmax ls (-1) i := by
+  unfold refSelect
+  rcases refGo_spec ls 0 none (-1) with ⟨h1, h2⟩ | ⟨k, h1, hk⟩
+  · rw [h1]
+    constructor
+    · intro h; cases h
+    · rintro ⟨l, g1, g2, g3, -, -⟩
+      have := h2 l (List.mem_of_getElem? g1) g2
+      omega
+  · rw [h1]
+    constructor
+    · intro h
+      have : k = i := by simpa using h
+      subst this; exact hk
+    · intro h
+      have := isArgmax_unique hk h
+      subst this; simp
+
+theorem refSelect_none_iff (ls : List RefLink) :
+    refSelect ls = none ↔ ∀ l ∈ ls, l.timedOut = false → refScore l ≤ -1 := by
+  unfold refSelect
+  rcases refGo_spec ls 0 none (-1) with ⟨h1, h2⟩ | ⟨k, h1, l, g1, g2, g3, -, -⟩
+  · rw [h1]; exact ⟨fun _ => h2, fun _ => rfl⟩
+  · rw [h1]
+    constructor
+    · intro h; cases h
+    · intro h
+      have := h l (List.mem_of_getElem? g1) g2
+      omega
+
+/-- For a non-negative window and in-flight count the score is non-negative. -/
+theorem refScore_nonneg (l : RefLink) (hw : 0 ≤ l.window) (hi : 0 ≤ l.inFlight) : 0 ≤ refScore l := by
+  unfold refScore
+  exact Int.ediv_nonneg hw (by omega)
+
 end Srtla.ClassicRef
